@@ -210,6 +210,11 @@ func checkReturnExclusive(p *Prog, r *Report, f *ssa.Function) int {
 		val, errv := ret.Results[0], ret.Results[1]
 		key := funcName(f) + ":" + p.describe(ret)
 		ek := errKind(errv, ret)
+		if e0, ok := val.(*ssa.Extract); ok {
+			if e1, ok := errv.(*ssa.Extract); ok && e0.Tuple == e1.Tuple && e0.Index == 0 && e1.Index == 1 && ek != "nil" && ek != "nonnil" {
+				ek = "tuple"
+			}
+		}
 		vk := valKind(val)
 		switch {
 		case ek == "tuple":
@@ -330,6 +335,54 @@ func valKind(v ssa.Value) string {
 // booleans (the SSA form of && / || in switch cases) are resolved per
 // predecessor, and branches whose resolved condition is a constant are pruned.
 func mustPassEdge(f *ssa.Function, target *ssa.BasicBlock, okCond func(cond ssa.Value, truth bool) bool) bool {
+	return mustPassEdgeP(f, target, okCond, nil)
+}
+
+// intBranchDecider: decides integer comparisons from the facts that dominate
+// the branch (difference-bound prover).
+func intBranchDecider(bf *boundsFn) func(ifi *ssa.If) (bool, bool) {
+	return func(ifi *ssa.If) (bool, bool) {
+		bo, ok := ifi.Cond.(*ssa.BinOp)
+		if !ok {
+			return false, false
+		}
+		bt, ok := bo.X.Type().Underlying().(*types.Basic)
+		if !ok || bt.Info()&types.IsInteger == 0 {
+			return false, false
+		}
+		xa, xo := bf.atom(bo.X)
+		ya, yo := bf.atom(bo.Y)
+		// prove cond or its negation
+		holds := func(op token.Token) bool {
+			switch op {
+			case token.LSS:
+				return bf.prove(xa, xo+1, ya, yo, ifi, nil)
+			case token.LEQ:
+				return bf.prove(xa, xo, ya, yo, ifi, nil)
+			case token.GTR:
+				return bf.prove(ya, yo+1, xa, xo, ifi, nil)
+			case token.GEQ:
+				return bf.prove(ya, yo, xa, xo, ifi, nil)
+			case token.EQL:
+				return bf.prove(xa, xo, ya, yo, ifi, nil) && bf.prove(ya, yo, xa, xo, ifi, nil)
+			case token.NEQ:
+				return bf.prove(xa, xo+1, ya, yo, ifi, nil) || bf.prove(ya, yo+1, xa, xo, ifi, nil)
+			}
+			return false
+		}
+		if holds(bo.Op) {
+			return true, true
+		}
+		if holds(negateCmp(bo.Op)) {
+			return true, false
+		}
+		return false, false
+	}
+}
+
+// mustPassEdgeP additionally prunes branches that the dominating integer
+// facts contradict (decide returns known, value).
+func mustPassEdgeP(f *ssa.Function, target *ssa.BasicBlock, okCond func(cond ssa.Value, truth bool) bool, decide func(ifi *ssa.If) (bool, bool)) bool {
 	type node struct {
 		b    *ssa.BasicBlock
 		pred *ssa.BasicBlock
@@ -360,6 +413,18 @@ func mustPassEdge(f *ssa.Function, target *ssa.BasicBlock, okCond func(cond ssa.
 				if p == n.pred {
 					cond = phi.Edges[i]
 				}
+			}
+		}
+		if decide != nil && cond == ifi.Cond {
+			if known, val := decide(ifi); known {
+				idx := 1
+				if val {
+					idx = 0
+				}
+				if !okCond(cond, val) {
+					work = append(work, node{n.b.Succs[idx], n.b})
+				}
+				continue
 			}
 		}
 		for i, s := range n.b.Succs {
